@@ -71,6 +71,43 @@ def _loop_syms(v):
     return out
 
 
+def _owner_rposition_idiom(fb, ob, ps, PO):
+    """`toks.iter().rposition(|t| { cnt += delta(t); matches!(t, Op) && cnt == 1 })` with cnt = 0 before: rposition visits the
+    tokens from the last to the first and returns the index (from the front) of the first hit.  True, or what does not fit."""
+    if len(ps) != 1 or ps[0].status != "return" or not isinstance(ps[0].result, App):
+        return None
+    r = ps[0].result
+    if not re.match(r"^std::iter::(Iterator|DoubleEndedIterator)::rposition\(core::slice::<impl \[T\]>::iter\(toks\), closure<\{closure#\d+\}>\)$", rel.cstr(r)):
+        return None
+    cl = r.args[1]
+    if not isinstance(cl, Closure) or len(cl.caps) != 1:
+        return "the predicate captures %s" % sorted(getattr(cl, "caps", {}))
+    cap, init = list(cl.caps.items())[0]
+    if rel.const_int(init) != 0:
+        return "the running count starts at %s" % show(init)
+    cb = fb.bodies.get(cl.path)
+    C = ".cap:%s(env)" % cap
+    want = {"open": 1, "close": -1, "num": 0, "var": 0, "op": 0}
+    for nm, tok in (("open", Variant(TOK, "Paren", {"0": Variant("parser::Paren", "Open", {})})), ("close", Variant(TOK, "Paren", {"0": Variant("parser::Paren", "Close", {})})),
+                    ("num", Variant(TOK, "Num", {"0": Sym("n")})), ("var", Variant(TOK, "Var", {"0": Sym("v")})), ("op", Variant(TOK, "Op", {"0": Sym("o")}))):
+        qs = [q for q in Interp(fb, PO()).run(cb, [Sym("env"), tok]) if q.status != "unreachable"]
+        if any(q.status != "return" for q in qs):
+            return "predicate: %s" % [(q.status, q.note) for q in qs if q.status != "return"][:1]
+        new = "binop:Add(%s, %d_i32)" % (C, want[nm])
+        for q in qs:
+            wr = [(show(e[1]), rel.cstr(e[3])) for e in q.events if e[0] == "write_opaque"]
+            if wr != [(C, new)]:
+                return "running count for a %s token: %s" % (nm, wr)
+        verdict = sorted((rel.cstr(q.result), tuple((rel.cstr(d[1]), str(d[2])) for d in q.decisions)) for q in qs)
+        if nm == "op":
+            eq = "binop:Eq(%s, 1_i32)" % new
+            if verdict not in ([(eq, ())], sorted([("true", ((eq, "True"),)), ("false", ((eq, "False"),))])):
+                return "an operator token is accepted under %s" % verdict[:2]
+        elif not verdict or any(v[0] != "false" for v in verdict):
+            return "a %s token can be accepted: %s" % (nm, verdict[:2])
+    return True
+
+
 def _owner_loop_idiom(fb, ob):
     """The owner search as an explicit loop from the right:
          for idx in (0..toks.len()).rev() { match toks[idx] { `)` => cnt -= 1, `(` => cnt += 1, Op if cnt == 1 => return Some(idx), _ => () } } None
@@ -492,6 +529,12 @@ def run(ctx):
                     if not (op_ok and rest_ok):
                         good = False
                         why = "predicate verdicts %s" % {k: v[:2] for k, v in verdicts.items()}
+    if not good:
+        g3 = _owner_rposition_idiom(fb, ob, ps, PO)
+        if g3 is True:
+            good = True
+        elif g3:
+            why = "%s; as rposition with a running count: %s" % (why, g3)
     if not good:
         g2, why2 = _owner_loop_idiom(fb, ob)
         if g2:
